@@ -9,9 +9,14 @@
 
 /* ---------------- allocation ledger (ares_library_init_mem) ---------------- */
 static long live_allocs;
+static long alloc_calls; /* allocator calls (malloc + realloc) since it was last reset */
+static long fail_at;     /* the fail_at-th call returns NULL (0: never) */
 static void *l_malloc(size_t n)
 {
-  void *p = malloc(n);
+  void *p;
+  alloc_calls++;
+  if (fail_at && alloc_calls == fail_at) return NULL;
+  p = malloc(n);
   if (p) live_allocs++;
   return p;
 }
@@ -25,6 +30,8 @@ static void *l_realloc(void *p, size_t n)
   void *q;
   if (p == NULL) return l_malloc(n);
   if (n == 0) { l_free(p); return NULL; }
+  alloc_calls++;
+  if (fail_at && alloc_calls == fail_at) return NULL;
   q = realloc(p, n);
   return q;
 }
